@@ -7,6 +7,7 @@ BUILD = os.path.join(ROOT, "build")
 REPO = os.environ.get("AS_REPO", "/repo")
 REPO_SRC = os.environ.get("AS_SRC", os.path.join(REPO, "src"))
 PY = sys.executable
+PYFLAGS = (["-b"] if sys.flags.bytes_warning else []) + (["-O"] if sys.flags.optimize else [])          # the worker subprocesses run as this process does
 MODEL = os.path.join(BUILD, "model")
 ALLOWED_ASSUMPTIONS = re.compile(r"^(PrimInt63\.|PrimFloat\.|Uint63\.|Float64\.)")   # kernel primitives only
 FORBIDDEN = re.compile(r"\b(Admitted|admit|Axiom|Axioms|Parameter|Parameters|Conjecture|Hypothesis|Hypotheses|Variable|Variables"
@@ -302,6 +303,7 @@ def write_replay(prop, payload):
     payload = jsonable(payload)
     h = hashlib.sha256(json.dumps(payload, sort_keys=True).encode()).hexdigest()[:12]
     path = os.path.join(ROOT, "replays", f"{prop}-{h}.json")
+    if sys.flags.optimize: payload["interpreter"] = "python -b -O"          # found by the second pass (check.py): the replay re-executes itself under the same flags
     payload["replay_cmd"] = f"./check {prop} --replay {path}"
     json.dump(payload, open(path, "w"), indent=1, sort_keys=True)
     return path
